@@ -369,6 +369,12 @@ func c13Judge(bg *[65536]uint8, sc *c13Scenario, x *sched.Scheduler, w *c13World
 }
 
 func checkC13(c *Ctx) {
+	if why := os.Getenv("VERIF_C13_SKIP"); why != "" {
+		fmt.Println("C13: exploration skipped:", why)
+		c.Capped("exploration skipped: " + why)
+		c.Rule = "exploration skipped (" + why + "); auxiliary free-running pass only"
+		return
+	}
 	if os.Getenv("VERIF_C13_REWRITTEN") != "1" {
 		fmt.Println("C13: this binary was not built against the rewritten package; bin/check C13 builds it. Nothing explored.")
 		c.Capped("rewrite not active")
